@@ -2,7 +2,6 @@
 
 from __future__ import annotations
 
-import os
 
 import mujoco
 import numpy as np
@@ -23,7 +22,7 @@ RULE = (
   "support*(1+-1e-3), along geom axes, pointing away, global random; unit or scaled direction) shared or per world; filters geomgroup "
   "(None or 6 flags), flg_static, per-ray bodyexclude; render context with all or a subset of groups (mask restricted to the subset). "
   "oracle = mujoco.mj_ray on the float32 geom poses computed by mjw.kinematics: hit/no-hit, geomid (unless two eligible geoms tie), "
-  "dist (2e-5/|vec| + 2e-4*dist + 0.5*sensitivity), normal (2e-3 + normal sensitivity, judged when sensitivity <= 0.05), sensitivity = change of the reference under the 1e-4 perturbations; mjw.rays(rc=rc) after refit_bvh must equal "
+  "dist (2e-5/|vec| + 2e-4*dist + 2*sensitivity), normal (2e-3 + normal sensitivity, judged when sensitivity <= 0.05), sensitivity = change of the reference under the 1e-4 perturbations; mjw.rays(rc=rc) after refit_bvh must equal "
   "the brute-force mjw.rays (geomid, dist 1e-5*(1+dist), normal 2e-3); mjw.ray == mjw.rays bitwise for two rays per case. Rays whose reference "
   "geomid or hit/no-hit flips under a 1e-4 perturbation of origin/direction (silhouettes, grazing ties) are boundary-skipped. "
   "evaluation = one (world, ray) comparison; non-trivial = ray hitting >=2 eligible geoms or whose unfiltered nearest geom is filtered out"
@@ -34,11 +33,10 @@ ASSUMPTIONS = [
   "direction vectors are non-zero; distances are in units of |vec| as in mj_ray",
 ]
 BUDGET = {
-  "quick": dict(examples=640, seconds=150, workers=16),
+  "quick": dict(examples=560, seconds=150, workers=16),
   "thorough": dict(examples=16000, seconds=1500, workers=16),
 }
 NRAY = 64
-_DEV = os.environ.get("VF_C34_DEV", "")  # development only: comma-separated sigs that are counted instead of raised
 _GT = mujoco.mjtGeom
 _TNAME = {0: "plane", 1: "hfield", 2: "sphere", 3: "capsule", 4: "ellipsoid", 5: "cylinder", 6: "box", 7: "mesh"}
 
@@ -67,6 +65,15 @@ def strategy(tier):
       vec_mode=st.sampled_from(["unit", "unit", "unit", "scaled"]),
     )
   )
+
+
+def enumerate_cases(tier, seed):
+  """Fixed cases run before the random campaign: they exercise the recorded finding classes that random scenes reach only rarely."""
+  mesh = dict(type="mesh", group=0, alpha=1, mat=0)
+  return [
+    # two scaled tetrahedra, nothing else in the scene BVH: rays across a tetra tip miss its mis-centred leaf box (bvh:mesh-bounds)
+    dict(geoms=[dict(mesh, host="world"), dict(mesh, host="free", group=1)], scene_seed=11, state_seed=11, ray_seed=11, nworld=2, shared_rays=False, geomgroup=None, flg_static=True, rc_groups=None, vec_mode="unit"),
+  ]
 
 
 # --------------------------------------------------------------------------------------
@@ -141,6 +148,13 @@ def gen_rays(rng, mjm, xpos, xmat, nray, vec_mode):
     elif kind == "toward":
       tgt = c + R @ (cl + rng.uniform(-0.9, 0.9, size=3) * ext)
       dirn = _unit(rng)
+      if t == _GT.mjGEOM_MESH and rng.random() < 0.4:
+        # across the tip of the mesh (the vertex farthest from the geom origin), perpendicular to the origin-tip direction
+        mid = mjm.geom_dataid[g]
+        mv = mjm.mesh_vert[mjm.mesh_vertadr[mid] : mjm.mesh_vertadr[mid] + mjm.mesh_vertnum[mid]]
+        tip = R @ mv[int(np.argmax(np.linalg.norm(mv, axis=1)))]
+        tgt = c + float(rng.uniform(0.8, 0.97)) * tip
+        dirn = _perp(rng, tip / np.linalg.norm(tip))
       o = tgt + dirn * L
       v = -dirn
     elif kind == "through":  # through a point of this geom and a point of another geom: nearest-of-many
@@ -182,6 +196,9 @@ def gen_rays(rng, mjm, xpos, xmat, nray, vec_mode):
       lp = cl + u * ext
       if t == _GT.mjGEOM_PLANE and rng.random() < 0.9:
         lp[2] = float(rng.uniform(-0.3, 0.3))  # in-plane directions: lift the origin off the plane (else ill-conditioned)
+        if j < 2:  # almost parallel to the plane, tilted by a well-conditioned angle (exactly parallel rays are boundary-skipped)
+          a = a + float(rng.choice([0.0, 1e-3, -1e-3, 1e-2, -1e-2, 0.1, -0.1])) * R[:, 2]
+          a = a / np.linalg.norm(a)
       o = c + R @ lp - a * L
       v = a
     elif kind == "away":
@@ -241,9 +258,6 @@ def _eligible(mjm, gg, flg, bex):
 
 
 def _route(rec, sig, msg, **details):
-  if _DEV and sig in _DEV.split(","):
-    rec.excluded[sig] += 1
-    return
   rec.violation(msg, sig=sig, **details)
 
 
@@ -385,11 +399,13 @@ def check(case, rec):
       degenerate = False
       for g in elig:
         if gtype[g] == _GT.mjGEOM_PLANE:
-          if abs(gm[w][g][:, 2] @ vh) < 1e-3 and abs(gm[w][g][:, 2] @ (p - gx[w][g])) < 1e-3:
+          lvz, lpz = abs(gm[w][g][:, 2] @ vh), abs(gm[w][g][:, 2] @ (p - gx[w][g]))
+          # parallel within float32 round-off (the sign of lvec_z, hence hit/no-hit at ~1e8, is not determined), or lying in the plane
+          if lvz < 1e-5 or (lvz < 1e-3 and lpz < 1e-3):
             degenerate = True
       if degenerate:
         rec.boundary_skipped += 1
-        rec.cls("boundary:ray-in-plane")
+        rec.cls("boundary:ray-parallel-to-plane")
         continue
       alld = np.array([_geom_dist(mjm, mjd, g, p, v) for g in range(mjm.ngeom)])
       hits = sorted(alld[g] for g in elig if alld[g] >= 0)
@@ -401,7 +417,7 @@ def check(case, rec):
         rec.cls("nt:nearest-of-many" if len(hits) >= 2 else "nt:filtered-nearest")
       if filtered_nearest:
         rec.cls("filtered-nearest")
-      tol_d = 2e-5 / vn_ + 2e-4 * abs(d0) + 0.5 * sens
+      tol_d = 2e-5 / vn_ + 2e-4 * abs(d0) + 2.0 * sens
       tie = len(hits) >= 2 and hits[1] - hits[0] <= 2 * tol_d
       if tie:
         rec.cls("tie")
@@ -436,7 +452,6 @@ def check(case, rec):
           return
         if not sig_known:
           rec.err(f"{tag}:dist/tol", abs(dd - rd) / tol)
-          if os.environ.get("VF_C34_DEBUG") and abs(dd - rd) / tol > 0.15: print("DBG dist", tag, abs(dd - rd) / tol, dd, rd, "sens", sens, _TNAME[int(gtype[rg])], mjm.geom_size[rg], ctx["kind"], vn_)
         if abs(dd - rd) > tol:
           return _route(rec, sig_known or f"{tag}:dist", f"{tag}: dist {dd} vs {rd} (tol {tol:.3g}) geom {dg} vs {rg} {ctx}", got=[dd, int(dg)], **ctx)
         if tie:
@@ -447,7 +462,6 @@ def check(case, rec):
           en = float(np.max(np.abs(dn - rn)))
           if not sig_known:
             rec.err(f"{tag}:normal/tol", en / (2e-3 + 1.0 * nsens))
-            if os.environ.get("VF_C34_DEBUG") and en / (2e-3 + 1.0 * nsens) > 0.04: print("DBG normal", tag, en, "nsens", nsens, _TNAME[int(gtype[rg])], mjm.geom_size[rg], ctx["kind"], dn, rn)
           if en > 2e-3 + 1.0 * nsens:
             return _route(rec, sig_known or f"{tag}:normal", f"{tag}: normal {dn.tolist()} vs {rn.tolist()} geom {rg} {ctx}", got=[dd, int(dg)], **ctx)
 
